@@ -17,6 +17,9 @@ ABTI_future *vf_fu;
 unsigned vf_t_publish, vf_publishes;
 static inline void ABTD_atomic_release_store_size(ABTD_atomic_size *ptr, size_t val)
 __CPROVER_requires(__CPROVER_is_fresh(ptr, sizeof(*ptr)))
+/* lockset: the counter of a live future is written only under the future's lock -- ABT_future_set reads, then writes it
+ * (read-modify-write made atomic by the lock only), so an unlocked writer (e.g. a reset) could be overwritten */
+__CPROVER_requires(vf_lock_held == 1 && vf_lock_which == &vf_fu->lock)
 __CPROVER_assigns(ptr->val, vf_clock, vf_t_publish, vf_publishes)
 __CPROVER_ensures(ptr->val == val && vf_clock == __CPROVER_old(vf_clock) + 1 && vf_t_publish == vf_clock && vf_publishes == __CPROVER_old(vf_publishes) + 1);
 
@@ -112,5 +115,6 @@ void h_future_reset(void)
     unsigned p0 = vf_publishes;
     int r = ABT_future_reset((ABT_future)&fu);
     VF_ASSERT(r == ABT_SUCCESS && fu.counter.val == 0 && vf_lock_held == 0 && vf_publishes == p0 + 1, "reset publishes counter 0 under the lock");
+    VF_ASSERT(vf_t_acquire < vf_t_publish && vf_t_publish < vf_t_release, "the reset store lies inside one critical section of the future's lock (it cannot fall between the read and the write of a concurrent set)");
     VF_REACH("future_reset returns");
 }
